@@ -79,15 +79,16 @@ PROPERTIES["C14"] = dict(
         "(adjacent tokens of symbolic kind, symbolic cursor offset from before the first token to past the last); CBMC "
         "decides that the active parameter is the number of commas that start before the cursor when the callee has "
         "parameters and None when it has none. The real find_call_stmt / find_call_stmt_in_stmt are executed on a procedure "
-        "whose body is if/while/else/block around a call, with symbolic procedure, statement and call offsets, call length and cursor: the call is "
+        "or block whose statement is if / while / if-else around a call (and a procedure whose body is a call), with symbolic offsets, call length and cursor: the call is "
         "returned iff the cursor lies inside it, together with the accumulated offset of its Reference chain. "
         "Only these two clauses of C14 are decided."),
     assumptions=[
         "tokens are adjacent one-byte tokens (token i covers [i, i+1)); kinds drawn from {',', '(', ')', ';', int}",
-        "hover text, signature label, choice of the enclosing call and the symbol-table lookup are outside (HashMap / parser out of reach)",
+        "hover text, signature label, selection of the enclosing PROCEDURE and the symbol-table lookup are outside (HashMap / parser out of reach)",
+        "enclosing-call harnesses: fixed statement shapes (block/if, block/while, block/else, procedure/call), one-byte adjacent tokens, Reference offsets <= 2 (<= 3 at procedure level)",
         "trusted: kani-compiler, CBMC, CaDiCaL",
     ],
-    outside=["more tokens than the bound; multi-byte tokens with gaps; everything of C14 except the active-parameter rule"],
+    outside=["more tokens / deeper nesting than the bound (a three-call tree and a procedure with a nested statement exhaust 24 GB)", "everything of C14 except the active-parameter rule and the choice of the enclosing call: hover text, signature label, parameter entries"],
     harnesses=[
         H("features::signature_help::__verif::c14_active_q", Q, "active parameter == #commas before cursor; None without parameters", "4 tokens of symbolic kind, cursor <= 6", timeout=600),
         H("features::signature_help::__verif::c14_active_t", T, "same", "7 tokens with symbolic gaps/widths, cursor anywhere", timeout=1800),
@@ -106,10 +107,11 @@ PROPERTIES["C15"] = dict(
     functions={"lsp4spl/src/features/semantic_tokens.rs": ["collect_error", "collect_type_dec", "collect_proc_dec", "map_token", "create_semantic_token"],
                "lsp4spl/src/document.rs": ["as_position"]},
     explanation=(
-        "The real collect_error / map_token / create_semantic_token (with the real document::as_position) are executed "
-        "symbolically on an arbitrary valid UTF-8 text and an arbitrary increasing sequence of tokens of symbolic kind "
-        "inside it, split over two consecutive calls that share previous_token_pos exactly as semantic_tokens() does "
-        "across global declarations. CBMC decides that the delta-encoded stream decodes to the LSP (UTF-16) positions of "
+        "The real map_token / create_semantic_token (with the real document::as_position) are executed symbolically on an "
+        "arbitrary valid UTF-8 text with two tokens of symbolic kind on symbolic char-boundary ranges (chain); the real "
+        "collect_error / collect_type_dec / collect_proc_dec (empty symbol table) are executed on a concrete 13-byte text "
+        "(ASCII, astral, 2-byte, two lines) with one token of symbolic kind and range per declaration, over two consecutive "
+        "declarations that share previous_token_pos exactly as semantic_tokens() does. CBMC decides that the delta-encoded stream decodes to the LSP (UTF-16) positions of "
         "precisely the tokens carrying a lexical class, in order, that `length` is the UTF-16 length of the token text, "
         "that the class index addresses the right entry of the announced legend, and that no u32 subtraction underflows."),
     assumptions=[
@@ -122,15 +124,15 @@ PROPERTIES["C15"] = dict(
         "trusted: kani-compiler, CBMC, CaDiCaL",
     ],
     outside=["texts longer than the byte bound, more tokens than the bound, more than two consecutive declarations",
-             "collect_proc_dec / collect_type_dec (identifier classification needs LookupTable)"],
+             "classification of RESOLVED identifiers in collect_proc_dec (needs a populated LookupTable) and the declaration modifier"],
     harnesses=[
         H("features::semantic_tokens::__verif::c15_s1_chain_q", Q, "create_semantic_token/map_token: delta of two consecutive classified tokens decodes to their LSP positions; UTF-16 length", "any valid UTF-8 text <= 4 bytes, 2 tokens on symbolic char-boundary ranges; unwind 6", timeout=1200),
-        H("features::semantic_tokens::__verif::c15_s1_collect_across", QT, "real collect_error on two consecutive declarations sharing previous_token_pos", "same text, one token of symbolic kind/range per declaration", timeout=1500, mem_gb=24),
+        H("features::semantic_tokens::__verif::c15_s1_collect_across", QT, "real collect_error on two consecutive declarations sharing previous_token_pos", "concrete 13-byte text (ASCII, astral, 2-byte, 2 lines), one token of symbolic kind/range per declaration; unwind 16", timeout=1500, mem_gb=24),
         H("features::semantic_tokens::__verif::c15_s1_typedec_across", QT, "real collect_type_dec on two consecutive type declarations sharing previous_token_pos; identifiers classified as TYPE", "concrete 13-byte text, one token of symbolic kind/range per declaration (name: None)", timeout=1500, mem_gb=24),
         H("features::semantic_tokens::__verif::c15_s1_procdec_across", QT, "real collect_proc_dec (empty symbol table) on two consecutive procedure declarations sharing previous_token_pos", "concrete 13-byte text, one token of symbolic kind/range per declaration", timeout=1500, mem_gb=24),
         H("features::semantic_tokens::__verif::c15_s3_all_kinds", QT, "map_token for each of the 36 token kinds", "one token, all kinds, symbolic literal values", timeout=600),
         H("features::semantic_tokens::__verif::c15_twin_must_fail", QT, "vacuity twin", "", expect="fail", timeout=600),
-        H("features::semantic_tokens::__verif::c15_s1_chain_t", T, "same as s1_chain_q", "any valid UTF-8 text <= 6 bytes; unwind 8", timeout=3600, mem_gb=24),
+        H("features::semantic_tokens::__verif::c15_s1_chain_t", T, "same as s1_chain_q", "any valid UTF-8 text <= 8 bytes, 2 tokens on symbolic char-boundary ranges; unwind 10", timeout=3600, mem_gb=24),
     ],
 )
 
@@ -168,14 +170,14 @@ PROPERTIES["C01"] = dict(
         "MECHANISM LEVEL ONLY. lexer::update and the real node parsers (nom) cannot be executed symbolically here, so this "
         "check decides the generic reuse machinery every node parser is built from, compiled from /repo: TokenChange::"
         "{new_token_pos,out_of_range,deletes,overlaps}: exact new index of surviving tokens, no over/underflow, and the predicates never MISS a change (A1; the conservative direction is deliberately not asserted); the real "
-        "affected() instantiated with a harness node type Leaf = ';'+ (one token of look-ahead) on an arbitrary old token "
+        "affected() instantiated with a harness node type Leaf = ';'* (maximal, possibly empty run: total parser, one token of look-ahead) on an arbitrary old token "
         "array, an arbitrary truthful window with up to 2 inserted tokens, an arbitrary old node and every reachable parser "
         "position: whenever the old node is REUSED, a parse from scratch at that position yields the same node and rest "
-        "(A2); a reused node keeps exactly its lexical/syntax messages (A3); Reference::parse, from scratch, restores the caller's frame "
+        "(A2); a reused node keeps exactly its lexical/syntax messages (A3); info() records node ranges relative to the enclosing Reference in the new stream and keeps the caller's diagnostics apart (A4i); Reference::parse, from scratch, restores the caller's frame "
         "and computes offset relative to the enclosing Reference in the new stream (A4). "
         "A pass is necessary, not sufficient, for C01."),
     assumptions=[
-        "node type is the harness-defined Leaf (';'+), not a real AST node; real node parsers, many()/parse_list(), the lexer window and the symbol table are NOT covered",
+        "node type is the harness-defined Leaf (';'*), not a real AST node; real node parsers, many()/parse_list(), the lexer window and the symbol table are NOT covered",
         "pre-states: parser positions a real caller can be in (node in the unchanged head => at the node; behind the window => inside the insertion or at/after the node's new position; start deleted => anywhere from the window start); a gap of unconsumed surviving tokens in front of the node is excluded (caller's duty)",
         "token kinds from {';', ',', '(', Eof}; the window never contains Eof (lexer::update pops it)",
         "one edit step from an arbitrary old state (inductive-step formulation); histories are not unrolled",
@@ -185,10 +187,10 @@ PROPERTIES["C01"] = dict(
     outside=["more old tokens / inserted tokens than the bound", "real AST node parsers and their look-ahead", "many(), parse_list(), handle_insertions (list resynchronisation)", "lexer::update", "table::build / analyze"],
     harnesses=[
         H("tokens::__verif::c01_a1_new_token_pos", QT, "new index of surviving tokens; no over/underflow", "all usize values up to 2^32", timeout=600),
-        H("tokens::__verif::c01_a1_out_of_range", QT, "p > ds+ins => out_of_range(p) (the direction and region reuse soundness needs); total", "all usize values up to 2^32", timeout=600),
+        H("tokens::__verif::c01_a1_out_of_range", QT, "p > ds+ins => out_of_range(p) (the direction and region reuse soundness needs); total", "window values up to 2^32, positions up to 2^33", timeout=600),
         H("tokens::__verif::c01_a1_deletes_overlaps", QT, "a deleted token inside R, or tokens inserted strictly inside R => overlaps(R) (the direction reuse soundness needs); deletes total", "all usize values up to 2^32", timeout=600),
         H("tokens::__verif::c01_a1_twin_must_fail", QT, "vacuity twin", "", expect="fail", timeout=600),
-        H("parser::utility::__verif::c01_a2_q", Q, "affected(): reuse => same as parse from scratch", "4 old tokens + Eof of symbolic kind, any window, <=2 inserted tokens, any old ';'-run node, any reachable position; unwind 8", timeout=1200, mem_gb=20),
+        H("parser::utility::__verif::c01_a2_q", Q, "affected(): reuse => same as parse from scratch", "4 old tokens + Eof of symbolic kind, any window, <=2 inserted tokens, any old ';'-run node, any reachable position; unwind 3 (loop-free harness)", timeout=1200, mem_gb=20),
         H("parser::utility::__verif::c01_a3_messages", QT, "reused node keeps lexical/syntax messages, drops build/semantic ones", "2 messages of symbolic class", timeout=900),
         H("parser::utility::__verif::c01_a4_info", QT, "info(): node range relative to the enclosing Reference in the new stream; buffered diagnostics go to the node; caller's buffer and frame restored", "4 old tokens + Eof, any window, any position and frame, 0..3 tokens consumed", timeout=900, mem_gb=20),
         H("parser::utility::__verif::c01_a2_twin_must_fail", QT, "vacuity twin", "", expect="fail", timeout=900),
